@@ -35,6 +35,11 @@ fn real_main() {
     let profile = if cfg!(debug_assertions) { "dbg" } else { "rel" };
     let config = format!("{}/{}/{}", profile, parity, if cfg!(feature = "serde") { "serde" } else { "std" });
     let t0 = std::time::Instant::now();
+    if matches!(engine.as_str(), "c09" | "c12r" | "c11" | "c12w" | "c10" | "c17") {
+        // every execution of these engines is a handful of calls on a buffer of a few bytes: 30 s of CPU time inside one of
+        // them means the call does not return (reported like a crash, with the case in the note)
+        oracle::sys::arm_hang_watchdog(10, 3);
+    }
     let mut rep = match engine.as_str() {
         "c14" => {
             let shard: usize = arg("--shard", "0").parse().unwrap();
